@@ -154,16 +154,18 @@ func program(c Case) (setup, main string) {
   (vt:end) (channel-push *done* id))
 `, c.M)
 		if c.Variant%4 == 2 {
-			// consumers wait with select on the item channel and on a quit channel; every item is acknowledged, and
-			// the quit channel is closed only when all items are: a consumer must see it whatever it looked at before
-			fmt.Fprintf(&sb, "(progn (setq *ch* (make-channel %d)) (setq *done* (make-channel %d)) (setq *quit* (make-channel 1)) (setq *ack* (make-channel 100000))", c.Cap+1, c.N+2) // room for every acknowledgement, also when a warm-up runs with the producers of the real case
+			// consumers wait with select on the item channel and on a quit channel. M rounds: fresh channels, the
+			// consumers are started, one item per producer id is pushed, every item is acknowledged, then the quit
+			// channel is closed and the consumers are joined: a consumer must see the closed quit channel whatever it
+			// looked at before (with so few items two consumers often look at the same last item)
+			fmt.Fprintf(&sb, "(progn (setq *done* (make-channel %d)) (setq *ack* (make-channel 100000)) (dotimes (r %d) (setq *ch* (make-channel 4)) (setq *quit* (make-channel 1))", c.N+2, c.M)
 			for i := 0; i < q; i++ {
 				fmt.Fprintf(&sb, " (run (consumer-select %d))", 100+i)
 			}
 			for i := 0; i < p; i++ {
-				fmt.Fprintf(&sb, " (run (producer %d))", i)
+				fmt.Fprintf(&sb, " (channel-push *ch* (cons %d r))", i)
 			}
-			fmt.Fprintf(&sb, " (dotimes (i %d) (channel-pop *done*)) (dotimes (i %d) (channel-pop *ack*)) (channel-close *quit*) (dotimes (i %d) (channel-pop *done*)) 'finished)", p, p*c.M, q)
+			fmt.Fprintf(&sb, " (dotimes (i %d) (channel-pop *ack*)) (channel-close *quit*) (dotimes (i %d) (channel-pop *done*))) 'finished)", p, q)
 			break
 		}
 		fmt.Fprintf(&sb, "(progn (setq *ch* (make-channel %d)) (setq *done* (make-channel %d))", c.Cap, c.N+2)
